@@ -107,7 +107,7 @@ def build (p : Parsed) : AppScen × List SlotRec :=
       points := fun i => match resolved.find? (fun x => x.1 == i) with | some x => x.2 | none => some []
       wired := fun i => match nodeOf i with | some n => n.wired | none => true
       logged := fun i => (nodeOf i).isSome
-      cfgOk := fun i => !(match nodeOf i with | some n => n.cfg == 2 || n.cfg == 6 || n.cfg == 7 || n.cfg == 10 | none => false) && !flt i 0 && !flt i 1
+      cfgOk := fun i => !(match nodeOf i with | some n => n.cfg == 2 || n.cfg == 6 || n.cfg == 7 || n.cfg == 10 || n.cfg == 13 | none => false) && !flt i 0 && !flt i 1
       fBefore := fun i => flt i 2, fAps := fun i => flt i 3, fInit := fun i => flt i 4, fAfter := fun i => flt i 5,
       fEarly := fun i => flt i 6,
       earlyO := fun i => match nodeOf i with | some n => ⟨i, n.early⟩ | none => raw i
